@@ -117,8 +117,11 @@ func c08GenSeq(rng *rand.Rand, w *wWorld, flavour string, soft bool, modelKey in
 			m := rng.Intn(3)
 			if condFree {
 				m = 0
-				if rng.Intn(3) > 0 {
-					continue // the empty clause.Where{} is the listed finding F26: visit it rarely
+				if !c09Facts().GuardRejectsEmptyWhere && rng.Intn(3) > 0 {
+					// the empty clause.Where{} is the finding F26 on a tree whose guard only tests the presence of the WHERE
+					// entry: visit it rarely there.  When the regenerated fact says the guard counts expressions (repaired) it
+					// is ordinary input space (no draw then: the unrepaired tree keeps its RNG stream).
+					continue
 				}
 			}
 			var as []*wAtom
@@ -668,7 +671,7 @@ func c09SeqJudge(r *Result, c c08SeqCase, steps []c08SeqOp, obs []c08StepObs, li
 					return
 				}
 			case !eff && !keyed && emptyCw:
-				c09JudgeEmptyWhere(r, c2, so.Rejected, so.Err, so.NExec, changed)
+				c09JudgeEmptyWhere(r, "reuse", c2, so.Rejected, so.Err, so.NExec, changed)
 			case so.Rejected:
 				r.Violate(Violation{Kind: "e2e", Suite: "reuse", Input: c2, Observed: so.Err,
 					Expected: "not ErrMissingWhereClause: a condition was supplied on this statement (or the value carries a primary key)"})
@@ -689,19 +692,41 @@ func c09SeqJudge(r *Result, c c08SeqCase, steps []c08SeqOp, obs []c08StepObs, li
 	}
 }
 
+// c09Facts: the regenerated facts (extract/gen_c09_fix.go → Gen/GuardWhereFacts.lean, read through the Lean driver) that
+// tell whether the repair of F26-C09-empty-where-entry is present in the tree under test. They select the model's
+// transcription of the guard (Lean side) and switch the generator: a repaired pattern is no longer avoided.
+type c09FactsT struct {
+	GuardRejectsEmptyWhere bool `json:"guardRejectsEmptyWhere"`
+}
+
+var c09FactsCache *c09FactsT
+
+func c09Facts() c09FactsT {
+	if c09FactsCache == nil {
+		f := c09FactsT{}
+		if outs, err := AskLean([][]interface{}{{"c09.facts"}}); err == nil && len(outs) == 1 {
+			_ = json.Unmarshal(outs[0], &f)
+		}
+		c09FactsCache = &f
+	}
+	return *c09FactsCache
+}
+
 // c09JudgeEmptyWhere: a chain whose only "condition" is a WHERE entry with ZERO expressions (Clauses(clause.Where{})).
-// The property demands a rejection without any statement. Listed finding F26: on a plain / Unscoped statement the
-// guard passes, `… WHERE ` reaches the database and is refused by its parser. Anything worse (no error, rows changed)
-// is a violation.
-func c09JudgeEmptyWhere(r *Result, input interface{}, rejected bool, errText string, nExec int, changed bool) {
+// The property demands a rejection without any statement — that is what is demanded here, on every tree. Finding F26
+// (while it is LISTED; a "fixed" entry suppresses nothing): on a plain / Unscoped statement the guard passes, `… WHERE `
+// reaches the database and is refused by its parser. Anything worse (no error, rows changed) is a violation.
+func c09JudgeEmptyWhere(r *Result, suite string, input interface{}, rejected bool, errText string, nExec int, changed bool) {
 	if rejected && nExec == 0 && !changed {
+		r.H("emptywhere.judged", "rejected, nothing sent")
 		return
 	}
 	if !rejected && errText != "" && !changed && listed("F26-C09-empty-where-entry") {
+		r.H("emptywhere.judged", "F26: sent and refused by the database")
 		r.KnownFinding("F26-C09-empty-where-entry", "Clauses(clause.Where{}) passes the guard; the statement is sent and refused by the database: "+trunc(errText, 40))
 		return
 	}
-	r.Violate(Violation{Kind: "e2e", Suite: "reuse", Input: input,
+	r.Violate(Violation{Kind: "e2e", Suite: suite, Input: input,
 		Observed: map[string]interface{}{"error": errText, "statements_sent": nExec, "table_changed": changed},
 		Expected: "ErrMissingWhereClause, no statement, table unchanged (an empty clause.Where{} supplies no condition)"})
 }
@@ -716,6 +741,12 @@ func init() {
 			}
 			if p == "C08" {
 				n = map[string]int{"quick": 400, "thorough": 5000, "search": 2500}[tier]
+			}
+			if p == "C09" {
+				// first of all: the listed witnesses of F26, literally (c09.go)
+				for _, w := range c09Witnesses {
+					c09ProbeWitness(r, w)
+				}
 			}
 			var jobs []*c08SeqJob
 			for i := 0; i < n && !expired(); i++ {
